@@ -255,6 +255,53 @@ theorem C12_off (L : Layout) (x : Machine) (g : Ghost) (h : LoopInv L x g) (ht :
   intro k
   exact C09_ignored L v.m (Event.released k) (by simp [hinp])
 
+/-- C12 (off, in ANY mode — also a repeated `Off`, or an `Off` that was never preceded by `On`): the loop
+leaves tablet mode with the timer stopped, the very next thing it does is write the release-all batch
+(if anything is held; nothing in tablet mode, by `C12_off`), and afterwards the mapper holds nothing —
+so mapping resumes as from a fresh start (`C06_relAll`) — and ignores a release of any key. -/
+theorem C12_off_any (L : Layout) (x : Machine) (g : Ghost) (h : LoopInv L x g) (rest : List Dev)
+    (hc : x.c = Ctl.readTab rest) :
+    let y := advance L x (Resp.tab (Next.one TabletEv.off))
+    y.v.inTablet = false ∧ y.v.rep = WorkingRepeat.idle ∧
+    y.v.m = (releaseAll L x.v.m).1 ∧
+    (if (releaseAll L x.v.m).2.isEmpty then y.c = Ctl.readTab rest else y.c = Ctl.sendRel rest (releaseAll L x.v.m).2) ∧
+    y.v.m.inp = [] ∧ held y.v.m = [] ∧
+    (∀ k, step L y.v.m (Event.released k) = (y.v.m, ⟨[], RRepeat.noChange⟩)) := by
+  obtain ⟨v, c⟩ := x
+  simp only at hc; subst hc
+  have ra := releaseAll_spec L _ v.m h.inv
+  have hinp : (releaseAll L v.m).1.inp = [] := by
+    have := ra
+    simp_all
+  have hstale : ∀ k, step L (releaseAll L v.m).1 (Event.released k) = ((releaseAll L v.m).1, ⟨[], RRepeat.noChange⟩) :=
+    fun k => C09_ignored L _ (Event.released k) (by simp [hinp])
+  simp only [adv_tab_one]
+  split <;> simp_all [held]
+
+/-- C12 ("releases of keys pressed before or during tablet mode produce no output") at EVERY later state,
+not only right after `Off`: start from a mapper that holds no input key (what `On` / `Off` leave behind,
+`C12_on`, `C12_off_any`) and let any history `h2` of key events follow; a key that `h2` leaves physically
+up — in particular one pressed before or during tablet mode and not pressed again since — is not an
+input key of the mapper, so its release is ignored: no output, no state change, repeat untouched. -/
+theorem C12_stale_release (L : Layout) (s : State) (hinv : ∃ P, Inv L P s) (hinp : s.inp = [])
+    (h2 : List Event) (k : Key) (hk : k ∉ foldEvs [] h2) :
+    step L (run L s h2).1 (Event.released k) = ((run L s h2).1, ⟨[], RRepeat.noChange⟩) := by
+  obtain ⟨P, hP⟩ := hinv
+  -- with no input key the invariant holds for the empty physical set
+  have h0 : Inv L [] s := ⟨hP.i, by intro x hx; rw [hinp] at hx; simp at hx, hP.actL, hP.noHid, hP.actNe⟩
+  have hrun : ∀ (es : List Event) (Q : List Key) (t : State), Inv L Q t → Inv L (foldEvs Q es) (run L t es).1 := by
+    intro es
+    induction es with
+    | nil => intro Q t ht; exact ht
+    | cons e es ih =>
+      intro Q t ht
+      have h1 := (step_inv L Q t e ht).1
+      have : (run L t (e :: es)).1 = (run L (step L t e).1 es).1 := by simp [run]
+      rw [this, foldEvs_cons]
+      exact ih _ _ h1
+  have hfin := hrun h2 [] s h0
+  exact C09_ignored L _ (Event.released k) (fun hc => hk (hfin.inpP k hc))
+
 /-! Non-vacuity: `A → B`; A is held (B down) when the switch turns on: B is released at once; the
 physical release of A and a new press during tablet mode write nothing; after `Off` the stale
 release of the second press is ignored and mapping works again. -/
